@@ -210,7 +210,17 @@ func Run(c *Case, m Mode) *Hist {
 	}
 
 	rootCtx, cancel := context.WithCancel(context.WithValue(context.Background(), ctxKey{}, "root"))
-	defer cancel()
+	if c.CustomRoot {
+		// a hand-written Context: the context package can follow its
+		// cancellation only through a helper goroutine. It stays live after
+		// the run (a long-lived caller context), so anything that still
+		// watches it then is a leak.
+		cancel()
+		mc := newManualCtx(context.WithValue(context.Background(), ctxKey{}, "root"))
+		rootCtx, cancel = mc, mc.Cancel
+	} else {
+		defer cancel()
+	}
 	childCtx := context.WithValue(rootCtx, ctxKey{}, "child")
 	backCtx := context.WithValue(context.Background(), ctxKey{}, "back")
 	ctxFor := func(j int) context.Context {
@@ -801,4 +811,33 @@ func settle(limit time.Duration) bool {
 		time.Sleep(20 * time.Millisecond)
 	}
 	return false
+}
+
+// manualCtx is a hand-written context.Context with its own Done channel.
+type manualCtx struct {
+	parent context.Context
+	mu     sync.Mutex
+	done   chan struct{}
+	err    error
+}
+
+func newManualCtx(parent context.Context) *manualCtx {
+	return &manualCtx{parent: parent, done: make(chan struct{})}
+}
+
+func (c *manualCtx) Deadline() (time.Time, bool)     { return time.Time{}, false }
+func (c *manualCtx) Done() <-chan struct{}           { return c.done }
+func (c *manualCtx) Value(k interface{}) interface{} { return c.parent.Value(k) }
+func (c *manualCtx) Err() error {
+	c.mu.Lock()
+	defer c.mu.Unlock()
+	return c.err
+}
+func (c *manualCtx) Cancel() {
+	c.mu.Lock()
+	defer c.mu.Unlock()
+	if c.err == nil {
+		c.err = context.Canceled
+		close(c.done)
+	}
 }
